@@ -5,7 +5,8 @@
     Part 3  p-values over R: formulas of Phipson & Smyth, range (0,1], the code's
             'approximate' versus the published integral form
     Part 4  MMD: compare's cached term equals the null's recomputation
-    Part 5  the rational instance QA (what the check evaluates) denotes the same reals *)
+    Part 5  the rational instance QA (what the check evaluates) denotes the same reals
+    Part 7  (placed before Part 3) a worker pool that completes chunks in any order returns map f xs *)
 From Coq Require Import ZArith String List Bool Reals Lra Lia.
 From Coq Require Import Permutation.
 From Coquelicot Require Import Coquelicot.
@@ -93,151 +94,217 @@ Qed.
 Lemma dget_app a b k : dget k (a ++ b)%list = match dget k a with Some v => Some v | None => dget k b end.
 Proof. induction a as [|[k' v'] a IH]; cbn [app dget]; [reflexivity|]. destruct (String.eqb k k'); [reflexivity | exact IH]. Qed.
 
+Lemma dget_dset d k k' v : dget k (dset d k' v) = if String.eqb k k' then Some v else dget k d.
+Proof.
+  destruct (String.eqb_spec k k') as [->|Hne]; [apply dget_dset_same | apply dget_dset_other; assumption].
+Qed.
+
+Lemma dict_equiv_dset a b k v : dict_equiv a b -> dict_equiv (dset a k v) (dset b k v).
+Proof. intros H k'. rewrite !dget_dset. destruct (String.eqb k' k); [reflexivity | apply H]. Qed.
+
+Lemma dict_equiv_trans a b c : dict_equiv a b -> dict_equiv b c -> dict_equiv a c.
+Proof. intros H1 H2 k. rewrite H1. apply H2. Qed.
+
 Definition user_num_bins (user : dict) : pv := match dget "num_bins" user with Some v => v | None => VInt 10 end.
-Definition user_or (k : string) (dflt : pv) (user : dict) : pv := match dget k user with Some v => v | None => dflt end.
 
 Definition strip_cache (d : det) (ck : dict) : dict :=
   match d with MMD => ddel "expected_k_xx" ck | _ => ck end.
 
+(** the keyword arguments of compare's path as a total function of the object (no cache entry) *)
+Definition cmp_dict (o : obj) : dict :=
+  match o_det o with
+  | PSI | Bhattacharyya | HINC => [("num_bins", getd "num_bins" (o_attrs o))]
+  | Hellinger => [("num_bins", getd "num_bins" (o_attrs o)); ("sqrt_div", getd "sqrt_div" (o_attrs o))]
+  | JS | KL => ("num_bins", getd "num_bins" (o_attrs o)) :: o_kwargs o
+  | EMD | Energy => o_kwargs o
+  | MMD => [("kernel", getd "kernel" (o_attrs o)); ("chunk_size", getd "chunk_size" (o_attrs o))]
+  end.
+
+Definition has (o : obj) (k : string) : Prop := dmem k (o_attrs o) = true.
+
+(** invariant of every detector object reachable by construction and setter calls *)
+Definition synced (o : obj) : Prop :=
+  match o_det o with
+  | PSI | Bhattacharyya | HINC => has o "num_bins"
+  | Hellinger => has o "num_bins" /\ has o "sqrt_div"
+  | JS | KL => has o "num_bins" /\ dget "num_bins" (o_kwargs o) = None
+  | EMD | Energy => True
+  | MMD => has o "kernel" /\ has o "chunk_size"
+  end /\ dict_equiv (o_skw o) (cmp_dict o).
+
+Lemma attr_getd o k : has o k -> attr o k = Ok (getd k (o_attrs o)).
+Proof. unfold has, dmem, attr, getd. destruct (dget k (o_attrs o)); [reflexivity | discriminate]. Qed.
+
+Lemma call_kw_nodup explicit kw : (forall kv, In kv kw -> dmem (fst kv) explicit = false) ->
+  call_kw explicit kw = Ok (explicit ++ kw)%list.
+Proof.
+  intros H. unfold call_kw. destruct (existsb (fun kv => dmem (fst kv) explicit) kw) eqn:E; [|reflexivity].
+  apply existsb_exists in E. destruct E as [kv [Hin Hm]]. rewrite (H kv Hin) in Hm. discriminate.
+Qed.
+
+Lemma dget_none_notin_single k (v : pv) (kw : dict) : dget k kw = None ->
+  forall kv, In kv kw -> dmem (fst kv) [(k, v)] = false.
+Proof.
+  intros Hn [k' v'] Hin. unfold dmem. cbn [fst dget].
+  destruct (String.eqb_spec k' k) as [->|Hne]; [|reflexivity].
+  exfalso. assert (Hk : In k (dkeys kw)) by (unfold dkeys; apply in_map_iff; exists (k, v'); auto).
+  clear - Hn Hk. induction kw as [|[k2 v2] kw IH]; [contradiction|].
+  cbn [dget] in Hn. cbn [dkeys map fst In] in Hk.
+  destruct (String.eqb_spec k k2) as [->|Hne]; [discriminate|]. destruct Hk as [Hk|Hk]; [congruence | auto].
+Qed.
+
+(** what compare passes, for a synced object *)
+Theorem synced_compare o : synced o ->
+  exists ck, compare_kwargs o [] = Ok ck /\ dict_equiv (null_kwargs o) (strip_cache (o_det o) ck).
+Proof.
+  unfold synced, compare_kwargs, cmp_dict, null_kwargs, strip_cache.
+  destruct (o_det o); intros [Hs He].
+  - rewrite (attr_getd o "num_bins" Hs). cbn [bind]. eexists; split; [reflexivity | exact He].
+  - destruct Hs as [H1 H2]. rewrite (attr_getd o "num_bins" H1), (attr_getd o "sqrt_div" H2). cbn [bind]. eexists; split; [reflexivity | exact He].
+  - rewrite (attr_getd o "num_bins" Hs). cbn [bind]. eexists; split; [reflexivity | exact He].
+  - rewrite (attr_getd o "num_bins" Hs). cbn [bind]. eexists; split; [reflexivity | exact He].
+  - destruct Hs as [H1 H2]. rewrite (attr_getd o "num_bins" H1). cbn [bind].
+    rewrite call_kw_nodup by (apply dget_none_notin_single; assumption). eexists; split; [reflexivity | exact He].
+  - destruct Hs as [H1 H2]. rewrite (attr_getd o "num_bins" H1). cbn [bind].
+    rewrite call_kw_nodup by (apply dget_none_notin_single; assumption). eexists; split; [reflexivity | exact He].
+  - eexists; split; [reflexivity | exact He].
+  - eexists; split; [reflexivity | exact He].
+  - destruct Hs as [H1 H2]. rewrite (attr_getd o "kernel" H1), (attr_getd o "chunk_size" H2). cbn [bind].
+    eexists; split; [reflexivity|]. intros k. rewrite He. cbn.
+    destruct (String.eqb k "kernel"); [reflexivity|]. destruct (String.eqb k "chunk_size"); [reflexivity|].
+    destruct (String.eqb "expected_k_xx" "kernel") eqn:E; reflexivity.
+Qed.
+
+Lemma getd_dset_same a k v : getd k (dset a k v) = v.
+Proof. unfold getd. rewrite dget_dset_same. reflexivity. Qed.
+Lemma getd_dset_other a k k' v : k <> k' -> getd k (dset a k' v) = getd k a.
+Proof. intros H. unfold getd. rewrite dget_dset_other by assumption. reflexivity. Qed.
+Lemma dmem_dset_same a k v : dmem k (dset a k v) = true.
+Proof. unfold dmem. rewrite dget_dset_same. reflexivity. Qed.
+Lemma dmem_dset_other a k k' v : k <> k' -> dmem k (dset a k' v) = dmem k a.
+Proof. intros H. unfold dmem. rewrite dget_dset_other by assumption. reflexivity. Qed.
+
 Definition NB : dict := [("num_bins", VInt 10)].
-Lemma dmem_single k k' v v' : dmem k [(k', v)] = true -> dmem k [(k', v')] = true.
-Proof. unfold dmem; cbn [dget]; destruct (String.eqb k k'); auto. Qed.
-
-Lemma construct_JS user o : construct JS user = Ok o ->
-  o = {| o_det := JS; o_skw := dmerge [("num_bins", user_num_bins user)] (rest_of NB user);
-         o_attrs := [("num_bins", user_num_bins user)]; o_kwargs := rest_of NB user |}.
-Proof.
-  unfold construct. cbn [signature fst snd bind_kw negb andb bind map getd dget String.eqb Ascii.eqb Bool.eqb].
-  fold (rest_of NB user). fold (user_num_bins user).
-  cbn. fold (user_num_bins user).
-  destruct (user_num_bins user) as [z| | | | |]; cbn; try discriminate.
-  - destruct (z <? 1)%Z; cbn; [discriminate|]. intros H; inversion H; reflexivity.
-  - intros H; inversion H; reflexivity.
-Qed.
-
-Lemma construct_KL user o : construct KL user = Ok o ->
-  o = {| o_det := KL; o_skw := dset (rest_of NB user) "num_bins" (user_num_bins user);
-         o_attrs := [("num_bins", user_num_bins user)]; o_kwargs := rest_of NB user |}.
-Proof.
-  unfold construct. cbn [signature fst snd bind_kw negb andb bind map getd dget String.eqb Ascii.eqb Bool.eqb].
-  fold (rest_of NB user). fold (user_num_bins user).
-  cbn. fold (user_num_bins user).
-  destruct (user_num_bins user) as [z| | | | |]; cbn; try discriminate.
-  - destruct (z <? 1)%Z; cbn; [discriminate|]. intros H; inversion H; reflexivity.
-  - intros H; inversion H; reflexivity.
-Qed.
+Definition MMD_SIG : dict := [("kernel", VFun 0); ("chunk_size", VNone)].
 
 Lemma filter_true {X} (l : list X) : filter (fun _ => true) l = l.
 Proof. induction l as [|x l IH]; cbn; [reflexivity | rewrite IH; reflexivity]. Qed.
 
-Lemma construct_EMD d user o : d = EMD \/ d = Energy -> construct d user = Ok o ->
-  o = {| o_det := d; o_skw := user; o_attrs := []; o_kwargs := user |}.
-Proof.
-  intros [-> | ->]; unfold construct; cbn; rewrite filter_true; unfold set_kwargs; cbn;
-  intros H; injection H as <-; reflexivity.
-Qed.
+Ltac fold_rest user sig :=
+  match goal with |- context [filter ?f user] => change (filter f user) with (rest_of sig user) end.
 
-Definition MMD_SIG : dict := [("kernel", VFun 0); ("chunk_size", VNone)].
-Lemma construct_MMD user o : construct MMD user = Ok o ->
-  let k := user_or "kernel" (VFun 0) user in let c := user_or "chunk_size" VNone user in
-  o = {| o_det := MMD; o_skw := [("kernel", k); ("chunk_size", c)];
-         o_attrs := [("kernel", k); ("chunk_size", c)]; o_kwargs := [] |}.
+(** every successful constructor call yields a synced object *)
+Theorem construct_synced d user o : NoDup (dkeys user) -> construct d user = Ok o -> synced o /\ o_det o = d.
 Proof.
-  unfold construct, bind_kw. cbn [signature fst snd negb andb].
-  match goal with |- context [filter ?f user] => change (filter f user) with (rest_of MMD_SIG user) end.
-  destruct (rest_of MMD_SIG user); cbn; [|discriminate].
-  fold (user_or "kernel" (VFun 0) user). fold (user_or "chunk_size" VNone user).
-  destruct (user_or "kernel" (VFun 0) user) as [z| | |kid| |]; cbn; try discriminate.
-  destruct (user_or "chunk_size" VNone user) as [z| | | | |]; cbn; try discriminate.
-  - destruct (z <=? 0)%Z; cbn; [discriminate|]. intros H; inversion H; reflexivity.
-  - intros H; inversion H; reflexivity.
-Qed.
-
-Lemma construct_binned d user o : binned d = true -> construct d user = Ok o ->
-  let nb := user_num_bins user in
-  o_det o = d /\
-  dget "num_bins" (o_skw o) = Some (VInt 10) /\
-  dget "num_bins" (o_attrs o) = Some nb /\
-  (d = Hellinger -> dget "sqrt_div" (o_skw o) = Some VSqrt2 /\ dget "sqrt_div" (o_attrs o) = Some VSqrt2).
-Proof.
-  intros Hb. destruct d; try discriminate Hb; clear Hb;
-  unfold construct, bind_kw; cbn [signature fst snd negb andb];
-  match goal with |- context [filter ?f user] => change (filter f user) with (rest_of NB user) end;
-  (destruct (rest_of NB user); cbn; [|discriminate]); fold (user_num_bins user);
-  (destruct (user_num_bins user) as [z| | | | |]; cbn; try discriminate;
-   [destruct (z <? 1)%Z; cbn; [discriminate|] |]);
-  intros H; inversion H; cbn; repeat split; try reflexivity; try congruence.
-Qed.
-
-(** ** null_uses_detector_params: the five detectors that keep their parameters *)
-Theorem null_uses_detector_params_lemma : forall d user o, binned d = false -> NoDup (dkeys user) ->
-  construct d user = Ok o ->
-  exists ck, compare_kwargs o [] = Ok ck /\ dict_equiv (null_kwargs o) (strip_cache d ck).
-Proof.
-  intros d user o Hb Hnd Hc. destruct d; try discriminate Hb; clear Hb.
+  intros Hnd. destruct d; unfold construct, bind_kw; cbn [signature fst snd negb andb].
+  1-4: fold_rest user NB; (destruct (rest_of NB user); cbn; [|discriminate]); fold (user_num_bins user);
+       (destruct (user_num_bins user) as [z| | | | |]; cbn; try discriminate; [destruct (z <? 1)%Z; cbn; [discriminate|] |]);
+       intros H; injection H as <-; (split; [|reflexivity]); unfold synced, has; cbn; repeat split; intros k; cbn;
+       repeat (destruct (String.eqb k _); try reflexivity).
   - (* JS *)
-    apply construct_JS in Hc. subst o. cbn [compare_kwargs o_det attr o_attrs dget String.eqb Ascii.eqb Bool.eqb bind o_kwargs].
-    cbn. rewrite (call_kw_rest _ NB user) by (intros k; apply dmem_single).
-    eexists; split; [reflexivity|]. intros k. unfold null_kwargs, strip_cache. cbn [o_skw].
-    rewrite dget_dmerge by (apply rest_of_keys; assumption).
-    cbn [app dget].
-    destruct (String.eqb_spec k "num_bins") as [->|Hne].
-    + rewrite rest_of_get by reflexivity. reflexivity.
-    + destruct (dget k (rest_of NB user)); reflexivity.
+    fold_rest user NB. cbn. fold (user_num_bins user).
+    destruct (user_num_bins user) as [z| | | | |]; cbn; try discriminate; [destruct (z <? 1)%Z; cbn; [discriminate|] |];
+    intros H; injection H as <-; (split; [|reflexivity]); unfold synced, has; cbn;
+    (split; [split; [reflexivity | apply rest_of_get; reflexivity]|]);
+    intros k; rewrite !dget_dset, dget_dmerge by (apply rest_of_keys; assumption); cbn [dget];
+    (destruct (String.eqb_spec k "num_bins") as [->|Hne]; [reflexivity|]); destruct (dget k (rest_of NB user)); reflexivity.
   - (* KL *)
-    apply construct_KL in Hc. subst o. cbn [compare_kwargs o_det attr o_attrs dget String.eqb Ascii.eqb Bool.eqb bind o_kwargs].
-    cbn. rewrite (call_kw_rest _ NB user) by (intros k; apply dmem_single).
-    eexists; split; [reflexivity|]. intros k. unfold null_kwargs, strip_cache. cbn [o_skw app dget].
-    destruct (String.eqb_spec k "num_bins") as [->|Hne].
-    + apply dget_dset_same.
-    + apply dget_dset_other. assumption.
-  - (* EMD *)
-    apply (construct_EMD EMD) in Hc; [|left; reflexivity]. subst o. cbn. eexists; split; [reflexivity|]. intros k; reflexivity.
-  - (* Energy *)
-    apply (construct_EMD Energy) in Hc; [|right; reflexivity]. subst o. cbn. eexists; split; [reflexivity|]. intros k; reflexivity.
+    fold_rest user NB. cbn. fold (user_num_bins user).
+    destruct (user_num_bins user) as [z| | | | |]; cbn; try discriminate; [destruct (z <? 1)%Z; cbn; [discriminate|] |];
+    intros H; injection H as <-; (split; [|reflexivity]); unfold synced, has; cbn;
+    (split; [split; [reflexivity | apply rest_of_get; reflexivity]|]);
+    intros k; rewrite !dget_dset; cbn [dget]; destruct (String.eqb k "num_bins"); reflexivity.
+  - (* EMD *) cbn. rewrite filter_true. intros H; injection H as <-. split; [|reflexivity]. split; [exact I | intros k; reflexivity].
+  - (* Energy *) cbn. rewrite filter_true. intros H; injection H as <-. split; [|reflexivity]. split; [exact I | intros k; reflexivity].
   - (* MMD *)
-    apply construct_MMD in Hc. cbv zeta in Hc. subst o. cbn. eexists; split; [reflexivity|].
-    intros k. unfold null_kwargs, strip_cache. cbn. 
-    destruct (String.eqb k "kernel"); [reflexivity|]. destruct (String.eqb k "chunk_size"); reflexivity.
+    fold_rest user MMD_SIG. destruct (rest_of MMD_SIG user); cbn; [|discriminate].
+    set (kv := match dget "kernel" user with Some v => v | None => VFun 0 end).
+    set (cv := match dget "chunk_size" user with Some v => v | None => VNone end).
+    destruct kv as [z| | |kid| |]; cbn; try discriminate.
+    destruct cv as [z| | | | |]; cbn; try discriminate; [destruct (z <=? 0)%Z; cbn; [discriminate|] |];
+    intros H; injection H as <-; (split; [|reflexivity]); unfold synced, has; cbn; repeat split; intros k; cbn;
+    repeat (destruct (String.eqb k _); try reflexivity).
 Qed.
 
-(** MMD: the one extra keyword of compare's path is the cache token *)
-Lemma mmd_compare_extra_is_cache user o ck : construct MMD user = Ok o -> compare_kwargs o [] = Ok ck ->
+Definition settable (d : det) (k : string) : bool :=
+  match d with
+  | PSI | Hellinger | Bhattacharyya | HINC | JS | KL => String.eqb k "num_bins"
+  | MMD => String.eqb k "kernel" || String.eqb k "chunk_size"
+  | EMD | Energy => false
+  end.
+
+Lemma set_param_synced o k v :
+  synced o -> settable (o_det o) k = true -> synced (set_param o k v) /\ o_det (set_param o k v) = o_det o.
+Proof.
+  intros [Hs He] Hk. split; [|reflexivity].
+  assert (Hd : dict_equiv (o_skw (set_param o k v)) (dset (cmp_dict o) k v)) by (apply dict_equiv_dset; exact He).
+  unfold synced, has, cmp_dict in *.
+  change (o_det (set_param o k v)) with (o_det o).
+  change (o_attrs (set_param o k v)) with (dset (o_attrs o) k v).
+  change (o_kwargs (set_param o k v)) with (o_kwargs o).
+  change (o_skw (set_param o k v)) with (dset (o_skw o) k v) in *.
+  destruct (o_det o); cbn [settable] in Hk; try discriminate Hk;
+  try (apply String.eqb_eq in Hk; subst k).
+  - split; [apply dmem_dset_same|]. intros k'. rewrite Hd, getd_dset_same. cbn. destruct (String.eqb k' "num_bins"); reflexivity.
+  - destruct Hs as [H1 H2]. split; [split; [apply dmem_dset_same | rewrite dmem_dset_other by discriminate; exact H2]|].
+    intros k'. rewrite Hd, getd_dset_same, getd_dset_other by discriminate. cbn.
+    destruct (String.eqb k' "num_bins"); reflexivity.
+  - split; [apply dmem_dset_same|]. intros k'. rewrite Hd, getd_dset_same. cbn. destruct (String.eqb k' "num_bins"); reflexivity.
+  - split; [apply dmem_dset_same|]. intros k'. rewrite Hd, getd_dset_same. cbn. destruct (String.eqb k' "num_bins"); reflexivity.
+  - destruct Hs as [H1 H2]. split; [split; [apply dmem_dset_same | exact H2]|].
+    intros k'. rewrite Hd, getd_dset_same. cbn. destruct (String.eqb k' "num_bins"); reflexivity.
+  - destruct Hs as [H1 H2]. split; [split; [apply dmem_dset_same | exact H2]|].
+    intros k'. rewrite Hd, getd_dset_same. cbn. destruct (String.eqb k' "num_bins"); reflexivity.
+  - destruct Hs as [H1 H2]. apply orb_true_iff in Hk. destruct Hk as [Hk|Hk]; apply String.eqb_eq in Hk; subst k.
+    + split; [split; [apply dmem_dset_same | rewrite dmem_dset_other by discriminate; exact H2]|].
+      intros k'. rewrite Hd, getd_dset_same, getd_dset_other by discriminate. cbn.
+      destruct (String.eqb k' "kernel"); reflexivity.
+    + split; [split; [rewrite dmem_dset_other by discriminate; exact H1 | apply dmem_dset_same]|].
+      intros k'. rewrite Hd, getd_dset_same, getd_dset_other by discriminate. cbn.
+      destruct (String.eqb k' "kernel"); [reflexivity|]. destruct (String.eqb k' "chunk_size"); reflexivity.
+Qed.
+
+(** a successful call of a public setter keeps the object synced *)
+Theorem assign_synced o k v o' : synced o -> settable (o_det o) k = true -> assign_attr o k v = Ok o' ->
+  synced o' /\ o_det o' = o_det o.
+Proof.
+  intros Hs Hk. pose proof (fun v => set_param_synced o k v Hs Hk) as Hp.
+  unfold assign_attr, assign_num_bins.
+  destruct (o_det o) eqn:D; cbn [settable] in Hk; try discriminate Hk.
+  1-6: apply String.eqb_eq in Hk; subst k; cbn [String.eqb Ascii.eqb Bool.eqb]; unfold set_num_bins;
+       destruct v as [z| | | | |]; try discriminate; [destruct (z <? 1)%Z; [discriminate|] |];
+       intros H; injection H as <-; apply Hp.
+  apply orb_true_iff in Hk. destruct Hk as [Hk|Hk]; apply String.eqb_eq in Hk; subst k; cbn [String.eqb Ascii.eqb Bool.eqb].
+  - unfold set_kernel. destruct v; try discriminate. intros H; injection H as <-; apply Hp.
+  - unfold set_chunk_size. destruct v as [z| | | | |]; try discriminate; [destruct (z <=? 0)%Z; [discriminate|] |];
+    intros H; injection H as <-; apply Hp.
+Qed.
+
+(** any sequence of setter calls *)
+Fixpoint assign_all (o : obj) (kvs : list (string * pv)) : res obj :=
+  match kvs with [] => Ok o | (k, v) :: r => do o' <- assign_attr o k v; assign_all o' r end.
+
+Theorem null_uses_detector_params_lemma : forall d user o kvs o', NoDup (dkeys user) ->
+  construct d user = Ok o -> (forall kv, In kv kvs -> settable d (fst kv) = true) -> assign_all o kvs = Ok o' ->
+  exists ck, compare_kwargs o' [] = Ok ck /\ dict_equiv (null_kwargs o') (strip_cache d ck).
+Proof.
+  intros d user o kvs o' Hnd Hc Hset Ha.
+  destruct (construct_synced d user o Hnd Hc) as [Hs Hd]. clear Hc.
+  assert (H : synced o' /\ o_det o' = d).
+  { revert o Hs Hd Ha. induction kvs as [|[k v] r IH]; intros o Hs Hd Ha; cbn [assign_all] in Ha.
+    - injection Ha as <-. auto.
+    - destruct (assign_attr o k v) as [o1|e] eqn:E; [|discriminate]. cbn [bind] in Ha.
+      destruct (assign_synced o k v o1 Hs) as [Hs1 Hd1]; [rewrite Hd; apply (Hset (k, v)); left; reflexivity | exact E |].
+      apply (IH (fun kv H => Hset kv (or_intror H)) o1 Hs1); [congruence | exact Ha]. }
+  destruct H as [Hs' Hd']. rewrite <- Hd'. apply synced_compare. exact Hs'.
+Qed.
+
+Lemma mmd_compare_extra_is_cache o ck : o_det o = MMD -> compare_kwargs o [] = Ok ck ->
   dget "expected_k_xx" ck = Some VCacheKxx.
-Proof. intros Hc. apply construct_MMD in Hc. cbv zeta in Hc. subst o. cbn. intros H; inversion H; reflexivity. Qed.
-
-(** ** the four binned detectors: the null always uses 10 bins, compare uses the detector's *)
-Theorem binned_null_num_bins_lemma : forall d user o, binned d = true -> construct d user = Ok o ->
-  dget "num_bins" (null_kwargs o) = Some (VInt 10) /\
-  exists ck, compare_kwargs o [] = Ok ck /\ dget "num_bins" ck = Some (user_num_bins user).
 Proof.
-  intros d user o Hb Hc. destruct (construct_binned d user o Hb Hc) as [Hd [Hs [Ha Hh]]].
-  split; [exact Hs|].
-  unfold compare_kwargs, attr. rewrite Hd, Ha.
-  destruct d; try discriminate Hb; cbn [bind].
-  1,3,4: eexists; split; [reflexivity|]; cbn; reflexivity.
-  destruct (Hh eq_refl) as [_ Hq]. rewrite Hq. cbn. eexists; split; reflexivity.
+  unfold compare_kwargs. intros ->. destruct (attr o "kernel"); [|discriminate]. destruct (attr o "chunk_size"); [|discriminate].
+  cbn. intros H; injection H as <-. reflexivity.
 Qed.
-
-Theorem null_uses_detector_params_binned_refuted_lemma : forall d, binned d = true ->
-  exists user o ck, NoDup (dkeys user) /\ construct d user = Ok o /\ compare_kwargs o [] = Ok ck /\
-    dget "num_bins" (null_kwargs o) = Some (VInt 10) /\ dget "num_bins" ck = Some (VInt 5).
-Proof.
-  intros d Hb. exists [("num_bins", VInt 5)].
-  destruct d; try discriminate Hb; eexists; eexists; (split; [repeat constructor; intros []|]);
-  (split; [vm_compute; reflexivity|]); (split; [vm_compute; reflexivity|]); split; reflexivity.
-Qed.
-
-(** assignment through the public setter after construction is not seen by the null either *)
-Theorem null_ignores_setattr_refuted_lemma :
-  exists o o' ck, construct JS [] = Ok o /\ assign_num_bins o (VInt 5) = Ok o' /\ compare_kwargs o' [] = Ok ck /\
-    dget "num_bins" (null_kwargs o') = Some (VInt 10) /\ dget "num_bins" ck = Some (VInt 5).
-Proof. do 3 eexists. repeat split; vm_compute; reflexivity. Qed.
-
-Theorem null_ignores_setattr_mmd_refuted_lemma :
-  exists o o' ck, construct MMD [] = Ok o /\ assign_attr o "kernel" (VFun 7) = Ok o' /\ compare_kwargs o' [] = Ok ck /\
-    dget "kernel" (null_kwargs o') = Some (VFun 0) /\ dget "kernel" ck = Some (VFun 7).
-Proof. do 3 eexists. repeat split; vm_compute; reflexivity. Qed.
 
 Local Close Scope string_scope.
 
@@ -377,6 +444,133 @@ End PermLemmas.
 Theorem mmd_compare_is_null_lemma : forall (A : Arith) (row : Type) ksum asum (X Y : list row) (cs : option nat),
   mmd_compare (A:=A) row ksum asum X Y cs = mmd_null (A:=A) row ksum asum X Y cs.
 Proof. intros. unfold mmd_compare, mmd_null, mmd_static, mmd_fit. destruct cs; reflexivity. Qed.
+
+(** * Part 7 — the worker pool: any completion order of the chunks gives [map f xs] *)
+Section PoolProof.
+  Variables (X R : Type) (f : X -> R).
+  Variable cs : nat.
+  Hypothesis cs_pos : 0 < cs.
+  Variable xs : list X.
+  Let n := length xs.
+  Let target : list (option R) := map (fun x => Some (f x)) xs.
+
+  Lemma nth_firstn_lt {T} (l : list T) d : forall k j, j < k -> nth j (firstn k l) d = nth j l d.
+  Proof.
+    induction l as [|x l IH]; intros k j H; [rewrite firstn_nil; reflexivity|].
+    destruct k; [lia|]. destruct j; [reflexivity|]. cbn. apply IH. lia.
+  Qed.
+
+  Lemma nth_skipn_plus {T} (l : list T) d : forall k j, nth j (skipn k l) d = nth (k + j) l d.
+  Proof.
+    induction l as [|x l IH]; intros k j; [rewrite skipn_nil; destruct (k + j); destruct j; reflexivity|].
+    destruct k; [reflexivity|]. cbn. apply IH.
+  Qed.
+
+  Lemma skipn_skipn' {T} : forall b a (l : list T), skipn a (skipn b l) = skipn (b + a) l.
+  Proof.
+    induction b as [|b IH]; intros a l; [reflexivity|].
+    destruct l as [|x l]; [cbn [skipn]; rewrite !skipn_nil; reflexivity | cbn [skipn Nat.add]; apply IH].
+  Qed.
+
+  Lemma chunks_fuel_nth : forall i fuel (l : list X), length l <= fuel ->
+    nth i (chunks_fuel fuel cs l) [] = firstn cs (skipn (i * cs) l).
+  Proof.
+    induction i as [|i IH]; intros fuel l Hl.
+    - destruct fuel; cbn [chunks_fuel].
+      + destruct l; [|cbn in Hl; lia]. cbn. rewrite firstn_nil. reflexivity.
+      + destruct l; [cbn; rewrite firstn_nil; reflexivity | reflexivity].
+    - destruct fuel; cbn [chunks_fuel].
+      + destruct l; [|cbn in Hl; lia]. rewrite skipn_nil, firstn_nil. reflexivity.
+      + destruct l as [|x l]; [rewrite skipn_nil, firstn_nil; reflexivity|].
+        cbn [nth]. rewrite IH.
+        * rewrite skipn_skipn'. reflexivity.
+        * rewrite skipn_length. cbn [length] in *. lia.
+  Qed.
+
+  Lemma chunk_nth i : nth i (chunks cs xs) [] = firstn cs (skipn (i * cs) xs).
+  Proof. apply chunks_fuel_nth. lia. Qed.
+
+  Definition pool_step (v : list (option R)) (i : nat) : list (option R) :=
+    write_at (i * cs) (map (fun x => Some (f x)) (nth i (chunks cs xs) [])) v.
+
+  Lemma step_written i : map (fun x => Some (f x)) (nth i (chunks cs xs) []) = firstn cs (skipn (i * cs) target).
+  Proof. rewrite chunk_nth. unfold target. rewrite skipn_map, firstn_map. reflexivity. Qed.
+
+  Lemma written_length i : i * cs < n -> length (firstn cs (skipn (i * cs) target)) = Nat.min cs (n - i * cs).
+  Proof. intros H. rewrite firstn_length, skipn_length. unfold target. rewrite map_length. reflexivity. Qed.
+
+  Lemma write_at_length lo ys (v : list (option R)) : lo + length ys <= length v -> length (write_at lo ys v) = length v.
+  Proof. intros H. unfold write_at. rewrite !app_length, firstn_length, skipn_length. lia. Qed.
+
+  Lemma write_at_nth lo ys (v : list (option R)) j : lo + length ys <= length v ->
+    nth j (write_at lo ys v) None =
+    if (lo <=? j) && (j <? lo + length ys) then nth (j - lo) ys None else nth j v None.
+  Proof.
+    intros H. unfold write_at.
+    assert (Hf : length (firstn lo v) = lo) by (rewrite firstn_length; lia).
+    destruct (lo <=? j) eqn:E1; cbn [andb].
+    - apply Nat.leb_le in E1. rewrite app_nth2 by lia. rewrite Hf.
+      destruct (j <? lo + length ys) eqn:E2.
+      + apply Nat.ltb_lt in E2. rewrite app_nth1 by lia. reflexivity.
+      + apply Nat.ltb_ge in E2. rewrite app_nth2 by lia. rewrite nth_skipn_plus. f_equal. lia.
+    - apply Nat.leb_gt in E1. rewrite app_nth1 by lia. apply nth_firstn_lt. assumption.
+  Qed.
+
+  Lemma in_chunk_iff i j : j < n -> i * cs < n ->
+    (i * cs <= j /\ j < i * cs + Nat.min cs (n - i * cs)) <-> j / cs = i.
+  Proof.
+    intros Hj Hi. assert (Hc : cs <> 0) by lia. split.
+    - intros [H1 H2]. symmetry. apply (Nat.div_unique j cs i (j - i * cs)); [lia|].
+      rewrite (Nat.mul_comm cs i). lia.
+    - intros <-. pose proof (Nat.mul_div_le j cs Hc). pose proof (Nat.mul_succ_div_gt j cs Hc).
+      rewrite (Nat.mul_comm cs) in *. rewrite Nat.mul_succ_l in *. lia.
+  Qed.
+
+  Definition PoolInv (done : nat -> Prop) (v : list (option R)) : Prop :=
+    length v = n /\ forall j, j < n -> done (j / cs) -> nth j v None = nth j target None.
+
+  Lemma PoolInv_step done v i : PoolInv done v -> i * cs < n -> PoolInv (fun k => done k \/ k = i) (pool_step v i).
+  Proof.
+    intros [Hl Hq] Hi. unfold pool_step. rewrite step_written.
+    assert (Hlen := written_length i Hi).
+    assert (Hfit : i * cs + length (firstn cs (skipn (i * cs) target)) <= length v) by (rewrite Hlen; lia).
+    split; [rewrite write_at_length; assumption|].
+    intros j Hj Hd. rewrite write_at_nth by assumption. rewrite Hlen.
+    destruct ((i * cs <=? j) && (j <? i * cs + Nat.min cs (n - i * cs))) eqn:E.
+    - apply andb_true_iff in E. destruct E as [E1 E2]. apply Nat.leb_le in E1. apply Nat.ltb_lt in E2.
+      rewrite nth_firstn_lt by lia. rewrite nth_skipn_plus. f_equal. lia.
+    - destruct Hd as [Hd | Hd]; [apply Hq; assumption|].
+      exfalso. apply (in_chunk_iff i j Hj Hi) in Hd. destruct Hd as [H1 H2].
+      apply andb_false_iff in E. destruct E as [E|E]; [apply Nat.leb_gt in E | apply Nat.ltb_ge in E]; lia.
+  Qed.
+
+  Lemma PoolInv_weaken (d d' : nat -> Prop) v : (forall k, d' k -> d k) -> PoolInv d v -> PoolInv d' v.
+  Proof. intros H [Hl Hq]. split; [assumption|]. intros j Hj Hd. apply Hq; auto. Qed.
+
+  Lemma PoolInv_fold : forall schedule done v, PoolInv done v -> (forall i, In i schedule -> i * cs < n) ->
+    PoolInv (fun k => done k \/ In k schedule) (fold_left pool_step schedule v).
+  Proof.
+    induction schedule as [|i rest IH]; intros done v HQ Hr; cbn [fold_left].
+    - apply (PoolInv_weaken done); [intros k [H|[]]; assumption | assumption].
+    - apply (PoolInv_weaken (fun k => (done k \/ k = i) \/ In k rest)).
+      + intros k [H|[H|H]]; auto.
+      + apply IH; [apply PoolInv_step; [assumption | apply Hr; left; reflexivity] | intros; apply Hr; right; assumption].
+  Qed.
+
+  (** every chunk index in range, every chunk completed at least once, in ANY order (repeats allowed) *)
+  Theorem run_parallel_any_schedule_lemma (schedule : list nat) :
+    (forall i, In i schedule -> i * cs < n) -> (forall j, j < n -> In (j / cs) schedule) ->
+    run_parallel f cs xs schedule = map (fun x => Some (f x)) xs.
+  Proof.
+    intros Hr Hc. unfold run_parallel. fold n. fold pool_step.
+    destruct (PoolInv_fold schedule (fun _ => False) (repeat None n)) as [Hl Hq].
+    - split; [apply repeat_length | intros j _ []].
+    - assumption.
+    - apply (nth_ext _ _ None None).
+      + rewrite Hl. unfold n. rewrite map_length. reflexivity.
+      + intros j Hj. rewrite Hl in Hj. apply Hq; [assumption | right; apply Hc; assumption].
+  Qed.
+End PoolProof.
 
 (** * Part 3 — p-values over the reals *)
 Local Open Scope R_scope.
@@ -1079,22 +1273,16 @@ Qed.
 Lemma auto_is_exact_lemma requested : (requested <= MAX_NUM_PERM)%Z -> resolve Auto requested = Exact.
 Proof. intros H. unfold resolve. destruct (requested >? MAX_NUM_PERM)%Z eqn:E; [lia | reflexivity]. Qed.
 
-(** F22: the enumeration branch returns (n+m)! statistics but 'conservative' divides by the
-    requested number + 1.  Witness: 3 pooled samples, 10 permutations requested, b = 0:
-    1/11 instead of 1/7. *)
-Lemma conservative_formula_refuted_lemma : exists (b len : nat) (requested max_num : Z),
-  Z.of_nat len = Z.min requested max_num /\ (b <= len)%nat /\
-  Qpair (p_value (A:=QA) Conservative requested None max_num b len) = (1, 11)%Z /\
-  Qpair (@div QA (ofZ (Z.of_nat b + 1)) (ofZ (Z.of_nat len + 1))) = (1, 7)%Z.
-Proof. exists 0%nat, 6%nat, 10%Z, 6%Z. split; [reflexivity|]. split; [lia|]. split; vm_compute; reflexivity. Qed.
-
-(** when fewer than (n+m)! permutations are requested, [len = requested] and the formula holds *)
-Lemma conservative_formula_partial_lemma (b len : nat) (requested : Z) total max_num :
-  Z.of_nat len = requested ->
+(** 'conservative' divides by the number of null statistics computed + 1 (after fix 5423711),
+    whatever was requested and whichever branch produced them *)
+Lemma conservative_formula_lemma (b len : nat) (requested : Z) total max_num :
   p_value (A:=RealA) Conservative requested total max_num b len = ((INR b + 1) / (INR len + 1))%R.
-Proof.
-  intros H. unfold p_value, resolve. rewrite conservative_formula_R. rewrite <- H, <- INR_IZR_INZ. reflexivity.
-Qed.
+Proof. unfold p_value, resolve. rewrite conservative_formula_R, <- INR_IZR_INZ. reflexivity. Qed.
+
+(** regression witness for F22: 3 pooled samples, 10 permutations requested, 6 enumerated, b = 0: 1/7 (was 1/11) *)
+Lemma conservative_enumeration_witness :
+  Qpair (p_value (A:=QA) Conservative 10 None 6 0 6) = (1, 7)%Z.
+Proof. vm_compute. reflexivity. Qed.
 
 (** F23: b = 0, m = 16, m_t = 2: the code returns 0.04423, Phipson-Smyth's formula 0.000442 *)
 Lemma approximate_formula_refuted_lemma :
